@@ -44,6 +44,12 @@ BASES = {
                               ordered=True, add_missing_columns=True),
                       {"cols": [{"name": "a", "dtype": "int64", "values": [1, 2, 3]}, {"name": "q", "dtype": "int64", "values": [1, 2, 3]},
                                 {"name": "c", "dtype": "float64", "values": [1.5, 2.5, 3.5]}], "index": None}),
+    # a coercing string Index (value-dependent dtype on an object index): stand-alone and under a SeriesSchema
+    "index_parsing": (dict(S.comp(name="idx", dtype="str", coerce=True), kind="index"),
+                      _t(index={"kind": "single", "values": ["p", "q", "r"], "dtype": "object", "name": "idx"})),
+    "series_index_parsing": (dict(S.comp(name="a", dtype="int64"), kind="series", index=dict(S.comp(name="idx", dtype="str", coerce=True), kind="single")),
+                             {"cols": copy.deepcopy(T1["cols"][:1]),
+                              "index": {"kind": "single", "values": ["p", "q", "r"], "dtype": "object", "name": "idx"}}),
     "series": (dict(S.comp(name="a", dtype="int64"), kind="series", index=None),
                {"cols": copy.deepcopy(T1["cols"][:1]), "index": None}),
     "series_index": (dict(S.comp(name="a", dtype="int64"), kind="series", index=dict(S.comp(name="idx", dtype="int64"), kind="single")),
@@ -417,6 +423,8 @@ def apply_data_edit(table, e):
         if ix is None or ix["kind"] != "single":
             return None
         if e[1] == "float64":
+            if any(isinstance(v, str) for v in ix["values"]):
+                return None
             ix["values"] = [None if v is None else float(v) for v in ix["values"]]
         ix["dtype"] = e[1]
     elif op == "mixcell":
